@@ -137,7 +137,7 @@ func inList(l []*types.Transaction, h common.Hash) bool {
 	return false
 }
 
-// pruneSessions says whether the pool prunes on this state (TxPool.ResetTo: in
+// prunesOn says whether the pool prunes on this state (TxPool.ResetTo: in
 // the short, long and after-long session periods it only drops the block's own
 // transactions unless Mempool.ResetInCeremony is set).
 func prunesOn(r *sim.Replica, s *appstate.AppState) bool {
